@@ -884,6 +884,9 @@ func (h *harness) finalSecond(reason string) {
 	how := "the fatal event of the stream (" + h.fatalKind + ")"
 	if h.fatalKind == "" {
 		how = fmt.Sprintf("the peer closing %d bytes into a frame", sc.SecondCut)
+		if sc.SecondWedge {
+			how = "the application's Close while a data handler was blocked past the close timeout (reopened by the application; the handler has returned since)"
+		}
 	}
 	if h.c2 == nil {
 		w.Fail("NO_SECOND", "no second connection within %v of the first one ending at %v (state %v)", w.Now()-h.g2EndAt, h.g2EndAt, h.r.C.State())
@@ -897,7 +900,7 @@ func (h *harness) finalSecond(reason string) {
 		if h.g2SentAt > 0 {
 			what = fmt.Sprintf("after the peer started its stream at %v (in-header gap %v, idle gap between frames %v)", h.g2SentAt, sc.T8/2, 2*sc.T8)
 		}
-		w.Fail("IDLE_DROPPED", "second generation (opened %v, after the first one ended inside a frame by %s): the library closed it at %v %s; the peer was silent for %v before its first byte, T8 is %v — an idle connection is never timed out by T8%s",
+		w.Fail("IDLE_DROPPED", "second generation (opened %v, after the first one was ended by %s): the library closed it at %v %s; the peer was silent for %v before its first byte, T8 is %v — an idle connection is never timed out by T8%s",
 			h.g2OpenAt, how, at, what, sc.SecondIdle, sc.T8, h.ctx())
 
 		return
